@@ -16,6 +16,7 @@ import time
 STEP_CAP = 2000
 STALL_S = 20.0
 BLOCKED_S = 1.5      # a released party that neither parks nor exits for this long is waiting for a lock
+THREAD_QUIET_S = 1.0  # a released helper thread that does not come back for this long has finished
 
 
 class Party:
@@ -29,6 +30,9 @@ class Party:
         self.code = None
         self.out = b""
         self.err = b""
+        self.extra = []         # parked requests of further threads of the same process: [(conn, req)]
+        self.thread_inflight = 0   # released helper-thread requests that have not come back yet
+        self.t_thread = 0.0
 
 
 def point_name(req):
@@ -39,7 +43,7 @@ def point_name(req):
     return "git:" + (" ".join(words) if words else "?") + (":proxied" if req.get("proxied") else "")
 
 
-def run_concurrent(world, commands, rng=None, choices=None, policy="random", faults=None):
+def run_concurrent(world, commands, rng=None, choices=None, policy="random", faults=None, hold=None):
     """commands: [(label, argv, cwd, extra_env)].  Returns dict(results, schedule, steps, stalled).
     `choices`: recorded schedule [[label, point], ...] to replay; missing/invalid choices fall back
     to the first parked party (recorded as such)."""
@@ -118,12 +122,15 @@ def run_concurrent(world, commands, rng=None, choices=None, policy="random", fau
                             pass
                         s.close()
                     elif pt.conn is not None:
-                        # a second thread of the same party: let it pass (not scheduled)
-                        try:
-                            s.sendall(b"go\n")
-                        except OSError:
-                            pass
-                        s.close()
+                        # another thread of the same process (e.g. the notes sync beside the user's fetch / push):
+                        # parked as well and scheduled like a party of its own
+                        pt.extra.append((s, req))
+                        if pt.thread_inflight > 0:
+                            pt.thread_inflight -= 1
+                    elif pt.thread_inflight > 0 and not pt.running:
+                        # the helper thread that was released last comes back with its next call
+                        pt.extra.append((s, req))
+                        pt.thread_inflight -= 1
                     else:
                         pt.conn, pt.req, pt.running = s, req, False
                         pt.blocked = False
@@ -135,6 +142,13 @@ def run_concurrent(world, commands, rng=None, choices=None, policy="random", fau
         live = [pt for pt in parties.values() if not pt.exited]
         if not live:
             break
+        for pt in live:
+            # a released helper thread that stays silent while its process has other parked requests has finished
+            if pt.thread_inflight > 0 and time.time() - pt.t_thread > THREAD_QUIET_S and (pt.conn is not None or pt.extra):
+                pt.thread_inflight = 0
+        if any(pt.thread_inflight > 0 for pt in live):
+            accept_all(0.005)
+            continue
         if any(pt.running and not getattr(pt, "blocked", False) for pt in live):
             accept_all(0.005)
             if time.time() - t_last > BLOCKED_S and any(pt.conn is not None for pt in live):
@@ -148,7 +162,15 @@ def run_concurrent(world, commands, rng=None, choices=None, policy="random", fau
                 stalled = True
                 break
             continue
-        parked = sorted((pt for pt in live if pt.conn is not None), key=lambda p: p.label)
+        parked = sorted((pt for pt in live if pt.conn is not None or pt.extra), key=lambda p: p.label)
+        if hold:
+            # start constraints of the scenario: a party named in `hold` stays parked until another party has been
+            # released at a point whose name ends with the given suffix (e.g. its proxied git command)
+            def released(lbl, suffix):
+                return any(l == lbl and p.endswith(suffix) for l, p in schedule)
+            eligible = [pt for pt in parked if pt.label not in hold or released(*hold[pt.label])]
+            if eligible or not any(pt.running for pt in live):
+                parked = eligible or parked
         if not parked:
             accept_all(0.005)
             if time.time() - t_last > STALL_S:
@@ -173,20 +195,35 @@ def run_concurrent(world, commands, rng=None, choices=None, policy="random", fau
                 pick = max(parked, key=lambda p: prio[p.label])
             elif policy == "stale":
                 # prefer the party that has just read a journal (opens the read-modify-write window wider)
-                others = [pt for pt in parked if not (pt.req.get("name") or "").endswith(("after_read", "before_write"))]
+                others = [pt for pt in parked if not ((pt.req or {}).get("name") or "").endswith(("after_read", "before_write"))]
                 pick = rng.choice(others) if others and rng.random() < 0.8 else rng.choice(parked)
             else:
                 pick = rng.choice(parked)
+        # which parked request of that process: the main one, or one of its helper threads
+        cands = ([("main", pick.conn, pick.req)] if pick.conn is not None else []) + \
+            [("thread", c, r) for c, r in pick.extra]
+        which = None
+        if choices is not None and ci - 1 < len(choices):
+            wantp = choices[ci - 1][1]
+            which = next((x for x in cands if point_name(x[2]) + ("@thread" if x[0] == "thread" else "") == wantp), None)
+        if which is None:
+            which = cands[0] if (choices is not None or rng is None or len(cands) == 1) else rng.choice(cands)
+        kind_, conn_, req_ = which
         verdict = "go"
         if faults:
-            verdict = faults.get((pick.label, point_name(pick.req), None), "go")
-        schedule.append([pick.label, point_name(pick.req)])
+            verdict = faults.get((pick.label, point_name(req_), None), "go")
+        schedule.append([pick.label, point_name(req_) + ("@thread" if kind_ == "thread" else "")])
         try:
-            pick.conn.sendall((verdict + "\n").encode())
+            conn_.sendall((verdict + "\n").encode())
         except OSError:
             pass
-        pick.conn.close()
-        pick.conn, pick.req, pick.running = None, None, True
+        conn_.close()
+        if kind_ == "thread":
+            pick.extra = [(c, r) for c, r in pick.extra if c is not conn_]
+            pick.thread_inflight += 1
+            pick.t_thread = time.time()
+        else:
+            pick.conn, pick.req, pick.running = None, None, True
         steps += 1
         t_last = time.time()
     # cleanup
@@ -204,6 +241,8 @@ def run_concurrent(world, commands, rng=None, choices=None, policy="random", fau
             pt.exited = True
         if pt.conn is not None:
             pt.conn.close()
+        for c, _r in pt.extra:
+            c.close()
     for s in list(pending_raw):
         s.close()
     srv.close()
